@@ -57,16 +57,17 @@ def run(tier, seed, replay=None):
     wit = [] if skip_design else vlib.witnesses("SessionLife", "SessionLife_wit.cfg", WITNESSES, wd, workers=2, timeout=600)
     for viol in res["violations"]:
         v.violation(viol["sig"], viol["what"], viol["replay"])
-    if res.get("inconclusive") and len(res["inconclusive"]) > max(1, n // 6):
-        if v.violations:
-            return v.finish("model_checking", {"evaluations": res["evaluations"], "note": "stopped at definite wrong values; " + "; ".join(res["inconclusive"][:3])})
-        raise vlib.Inconclusive("vsl driver: %d of %d scenarios hit a ceiling: %s" % (len(res["inconclusive"]), n, "; ".join(x[:300] for x in res["inconclusive"][:3])))
+    # the traces of scenarios that hit a ceiling are valid prefixes: a definite wrong value in them is still one
     nt = sessionlife.validate(wd, [hooks])
     for d in nt["diffs"]:
         v.violation("%s:%s:%s" % (PID, d["event"], "+".join(d["what"])),
                     "node event '%s' is not a behaviour of SessionCore/SessionLifeTrace: %s; node %s (scenario %s); event %s"
                     % (d["event"], ",".join(d["what"]), d["instance"]["self"], d["instance"].get("sc"), d["context"][-1]),
                     {"instance": d["instance"], "context": d["context"]})
+    if res.get("inconclusive") and len(res["inconclusive"]) > max(1, n // 6):
+        if v.violations:
+            return v.finish("model_checking", {"evaluations": res["evaluations"], "note": "definite wrong values; besides, scenarios hit ceilings: " + "; ".join(x[:200] for x in res["inconclusive"][:3])})
+        raise vlib.Inconclusive("vsl driver: %d of %d scenarios hit a ceiling: %s" % (len(res["inconclusive"]), n, "; ".join(x[:300] for x in res["inconclusive"][:3])))
     need = ("conn_add", "established", "init_send", "idle_tick", "idle_cut", "idle_scan_end", "conn_del", "known_del", "sess_end", "req",
             "redial_wait", "redial", "dial", "d_exit", "l_exit", "reject", "h_quiet", "h_end", "gexit")
     missing = [k for k in need if k not in nt["classes"]]
